@@ -10,7 +10,7 @@ import progs  # noqa: E402
 
 
 def main():
-    chk = Check('C01', extra_modules=['Bardolph.Props.C01Sim', 'Bardolph.Proofs.Sim', 'Bardolph.Proofs.SimX', 'Bardolph.Proofs.SimVals', 'Bardolph.Proofs.SimStmts', 'Bardolph.Proofs.SimFrame', 'Bardolph.Proofs.SimIter', 'Bardolph.Proofs.SimLoops', 'Bardolph.Proofs.SimLoad', 'Bardolph.Proofs.SimCalls', 'Bardolph.Proofs.SimTop'])
+    chk = Check('C01', extra_modules=['Bardolph.Props.C01Sim', 'Bardolph.Proofs.Sim', 'Bardolph.Proofs.SimX', 'Bardolph.Proofs.SimVals', 'Bardolph.Proofs.SimStmts', 'Bardolph.Proofs.SimFrame', 'Bardolph.Proofs.SimIter', 'Bardolph.Proofs.SimLoops', 'Bardolph.Proofs.SimLoad', 'Bardolph.Proofs.SimCalls', 'Bardolph.Proofs.SimTop', 'Bardolph.Proofs.SimReloc', 'Bardolph.Proofs.SimDefs'])
     chk.lean_phase(sections=set())
     rng = chk.rng
     n = 2500 if chk.thorough else 260
